@@ -214,9 +214,50 @@ def cacheSectionsOK (tbl : List (String × List (String × String × String × S
 /-- package-level variables of session_manager.go: written only inside the `sync.Once`, read only
     inside it or after `Do` returned, or touched through `sync/atomic` -/
 def globalKindOK (k : String) : Bool :=
-  k == "once" || k == "once-write" || k == "once-read" || k == "after-once-read" || k == "atomic"
+  k == "once" || k == "once-write" || k == "once-read" || k == "after-once-read" || k == "atomic" ||
+  k == "atomic-load" || k == "atomic-store"
 
 def globalsOK (g : List (String × String × String)) : Bool := g.all (fun a => globalKindOK a.2.2)
+
+/-- no function updates a package-level variable by an atomic load followed by a separate atomic
+    store (a split read-modify-write: race-free for the detector, and two goroutines can still read
+    the same value): a function that atomically STORES a variable does not also atomically LOAD it -/
+def noSplitRMW (g : List (String × String × String)) : Bool :=
+  g.all (fun a => !(a.2.2 == "atomic-store" && g.any (fun b => b.1 == a.1 && b.2.1 == a.2.1 && b.2.2 == "atomic-load")))
+
+/-- … and the session counter is advanced somewhere by one atomic read-modify-write -/
+def counterRMW (g : List (String × String × String)) : Bool :=
+  g.any (fun a => a.1 == "sessionCounter" && a.2.1 == "GetNextSessionCounter" && a.2.2 == "atomic")
+
+/-- in `storeClientSession` the entry is filed (`Store`) before any command is mapped to it: no
+    `MapCommand` precedes the first `Store`, and there is a `Store` -/
+def storeBeforeMap (calls : List String) : Bool :=
+  calls.contains "Store" && !((calls.takeWhile (fun m => m != "Store")).contains "MapCommand")
+
+/-! ### the session-id mint (`GetNextSessionCounter`) under any interleaving -/
+namespace Mint
+
+inductive Step
+  | add (t : Nat)          -- thread t: ONE atomic fetch-and-add (`atomic.AddUint64(&ctr, 1)`), returns the new value
+  | load (t : Nat)         -- thread t: atomic load into its register
+  | store (t : Nat)        -- thread t: atomic store of register + 1, returns that value
+  deriving DecidableEq, Repr
+
+structure St where
+  ctr : Nat
+  reg : Nat → Nat := fun _ => 0
+  out : List Nat := []          -- values handed out, newest first
+
+def step (s : St) : Step → St
+  | .add _ => { s with ctr := s.ctr + 1, out := (s.ctr + 1) :: s.out }
+  | .load t => { s with reg := fun u => if u = t then s.ctr else s.reg u }
+  | .store t => { s with ctr := s.reg t + 1, out := (s.reg t + 1) :: s.out }
+
+def run (s : St) (l : List Step) : St := l.foldl step s
+
+def onlyAdds (l : List Step) : Prop := ∀ x ∈ l, ∃ t, x = .add t
+
+end Mint
 
 /-! ## 2. The cache as a sequential object over shared entry objects -/
 namespace Lin
@@ -295,9 +336,8 @@ def apply (info : Nat → EntInfo) (c : CC) : Op → CC × Res
       | some u => (c, .ent (if expired info u then none else some u))
   | .mapCmd ck k => ({ c with cmds := (ck, k) :: adel c.cmds ck }, .unit)
   | .invalidate k =>
-    match aget c.sessions k with
-    | none => (c, .bool false)
-    | some _ => ({ sessions := adel c.sessions k, cmds := c.cmds.filter (fun p => p.2 != k) }, .bool true)
+    -- fix D24: the mappings that lead to `k` go whether or not an entry is still filed under it
+    ({ sessions := adel c.sessions k, cmds := c.cmds.filter (fun p => p.2 != k) }, .bool (aget c.sessions k).isSome)
   | .gc =>
     let live := c.sessions.filter (fun p => !expired info p.2)
     ({ sessions := live, cmds := c.cmds.filter (fun p => (aget live p.2).isSome) }, .nat (c.sessions.length - live.length))
